@@ -332,11 +332,24 @@ pub fn gen_start(r: &mut Rng) -> Start {
         let mut ids = vec![];
         for _ in 0..nstreams {
             let sid = fresh(r);
-            let plain = content_text(r);
-            let (sd, body) = if r.chance(1, 3) && !plain.is_empty() {
-                (vec![(k("Filter"), name("FlateDecode"))], codecs::zlib_encode(&plain, codecs::ZMode::Fixed, r))
-            } else {
-                (vec![], plain.clone())
+            let mut plain = content_text(r);
+            let (sd, body) = match r.below(6) {
+                0 | 1 if !plain.is_empty() => (vec![(k("Filter"), name("FlateDecode"))], codecs::zlib_encode(&plain, codecs::ZMode::Fixed, r)),
+                // Flate with a PNG predictor, as producers write when they recompress every stream alike
+                2 if !plain.is_empty() => {
+                    let cols = 1 + r.usize_below(12);
+                    while plain.len() % cols != 0 {
+                        plain.push(b'\n');
+                    }
+                    let filters = [codecs::RowFilter::None, codecs::RowFilter::Sub, codecs::RowFilter::Up, codecs::RowFilter::Avg, codecs::RowFilter::Paeth];
+                    let fixed = r.usize_below(6);
+                    let seed = r.next_u64();
+                    let mut pr = Rng::new(seed);
+                    let enc = codecs::png_encode(&plain, 1, 8, cols, &mut |_| if fixed < 5 { filters[fixed] } else { filters[pr.usize_below(5)] });
+                    let dp = RObj::Dict(vec![(k("Predictor"), RObj::Int(10 + fixed.min(5) as i64)), (k("Columns"), RObj::Int(cols as i64))]);
+                    (vec![(k("Filter"), name("FlateDecode")), (k("DecodeParms"), dp)], codecs::zlib_encode(&enc, codecs::ZMode::Fixed, r))
+                }
+                _ => (vec![], plain.clone()),
             };
             d.objects.insert(sid, RObj::Stream(sd, body));
             chunks.push(plain);
@@ -1089,7 +1102,7 @@ pub fn run(cfg: &RunCfg) -> (PropMeta, ShardOut, Map<String, Value>) {
     });
     let meta = PropMeta {
         level: "exploration",
-        rule: "random programs (1..40 steps) over new_object_id, add_object, set_object, delete_object, remove_object(annotation), prune_objects, delete_pages, renumber_objects(_with), compress, decompress, change_page_content, add_page_contents, add_to_page_content, add_xobject, add_graphics_state, get_or_create_resources, add_bookmark+build_outline, save+reload, on generated documents (1..6 pages in one or two tree levels; Contents as stream ref / array / reference to array / absent; Resources own, by reference, or inherited; annotations incl. duplicates; shared, cyclic and unreachable extras), one third of them written by the reference writer and loaded first. After every step: per-operation write set against a snapshot taken before the call, fresh ids, no reference to a deleted object left, exact prune set, Count invariant, page list and page content vs the position-keyed edit model, resources in effect never shrink. distinct = programs + distinct (op,op) successions observed.".into(),
+        rule: "random programs (1..40 steps) over new_object_id, add_object, set_object, delete_object, remove_object(annotation), prune_objects, delete_pages, renumber_objects(_with), compress, decompress, change_page_content, add_page_contents, add_to_page_content, add_xobject, add_graphics_state, get_or_create_resources, add_bookmark+build_outline, save+reload, on generated documents (1..6 pages in one or two tree levels; Contents as stream ref / array / reference to array / absent, content streams plain, Flate-coded or Flate-coded with a PNG predictor; Resources own, by reference, or inherited; annotations incl. duplicates; shared, cyclic and unreachable extras), one third of them written by the reference writer and loaded first. After every step: per-operation write set against a snapshot taken before the call, fresh ids, no reference to a deleted object left, exact prune set, Count invariant, page list and page content vs the position-keyed edit model, resources in effect never shrink. distinct = programs + distinct (op,op) successions observed.".into(),
         assumptions: vec![
             "delete_object / set_object are aimed at objects that are not page-tree nodes (deleting a page is delete_pages' job)".into(),
             "renumbering steps are judged by C10's oracle; dangling references that start to resolve are C10's known finding and not double-reported here".into(),
